@@ -81,8 +81,10 @@ class Run:
         self.queries = {"unsat": 0, "sat": 0, "unknown": 0}
         self.samples = []
         self.notes = []
-        os.makedirs(os.path.join(ROOT, "replays", prop), exist_ok=True)
-        os.makedirs(os.path.join(ROOT, "evidence"), exist_ok=True)
+        # maintainer runs against scratch worktrees write evidence/replays elsewhere (never the registered checks)
+        self.out_root = os.environ.get("VERIF_EVIDENCE_DIR") or ROOT
+        os.makedirs(os.path.join(self.out_root, "replays", prop), exist_ok=True)
+        os.makedirs(os.path.join(self.out_root, "evidence"), exist_ok=True)
 
     # ---------------------------------------------------------------- results
     def count(self, verdict, secs=0.0):
@@ -97,7 +99,7 @@ class Run:
                 print(f"KNOWN-FINDING: property={self.prop} {self.known[key].get('what', what)} [{key}]")
             return False
         safe = key.replace("/", "_").replace(":", "_").replace(" ", "_")[:150]
-        path = os.path.join(ROOT, "replays", self.prop, safe + ".json")
+        path = os.path.join(self.out_root, "replays", self.prop, safe + ".json")
         replay = dict(replay)
         replay.update({"property": self.prop, "key": key, "what": what})
         with open(path, "w") as f:
@@ -143,7 +145,7 @@ class Run:
             "wall_s": round(time.time() - self.t0, 2),
             "violations": len(self.new),
         }
-        path = os.path.join(ROOT, "evidence", f"{self.prop}.json")
+        path = os.path.join(self.out_root, "evidence", f"{self.prop}.json")
         with open(path, "w") as f:
             json.dump(ev, f, indent=1, default=str)
         code = 0
